@@ -636,7 +636,7 @@ func checkStream(c *runner.Ctx, units [][]byte, mix []int, off int) bool {
 	if c.WantSample() {
 		c.Sample(map[string]interface{}{"unit_sizes": lens(units), "start_code_lengths": mix, "buffer_offset": off,
 			"stream_head_hex": hex.EncodeToString(stream[:minInt(len(stream), 64)]),
-			"avc_types": typesOf(units, annexb.AVCType), "hevc_types": typesOf(units, annexb.HEVCType)})
+			"avc_types":       typesOf(units, annexb.AVCType), "hevc_types": typesOf(units, annexb.HEVCType)})
 	}
 	return !k.failed
 }
